@@ -767,3 +767,22 @@ def deepen(m, nlevels, seed=0):
         m.layout.append(_layout(rng, 1, 1, False))
     m.steps = [m.steps[0]] * nlevels
     return m
+
+
+def plant_long_max(m, seed=0):
+    """Min/max rows whose longest MAXIMUM token is longer than every MINIMUM token of the level: all values
+    become positive with two-digit exponents ("1.2345678901234567e+00": 22 characters) and one cell per level
+    holds a normal double with a three-digit exponent (23 characters: 6.3e+120 or 4.1e-120 as the maximum of a
+    tiny field) - text buffers sized from the first table then cut the second."""
+    rng = random.Random(seed)
+    for lv in range(m.nlevels):
+        for bi, a in enumerate(m.data[lv]):
+            with np.errstate(all="ignore"):
+                b = np.abs(np.nan_to_num(a, nan=1.5, posinf=2.5, neginf=3.5))
+                b = 1.0 + np.mod(b, 7.0)
+            m.data[lv][bi] = np.asfortranarray(b)
+        bi = rng.randrange(len(m.data[lv]))
+        f = rng.randrange(m.nfields)
+        idx = tuple(rng.randrange(n) for n in m.data[lv][bi].shape[:-1]) + (f,)
+        m.data[lv][bi][idx] = 6.3374381323380517e+120
+    return m
